@@ -429,7 +429,14 @@ pub fn run_scenario(sc: &Scenario, props: &[&'static str]) -> Trace {
                         std::thread::sleep(Duration::from_millis(100));
                     }
                     if st != "reachable" {
-                        cx.v("C13", format!("delivered-but-status-{st}"), format!("tower {t}: everything delivered, status still {st}"));
+                        if st.is_empty() {
+                            // listtowers is not answered any more: the client's state is locked for good (a task died holding it)
+                            let err = cx.client.as_ref().map(|c| c.stderr.lock().unwrap().clone()).unwrap_or_default();
+                            let msg: String = err.lines().filter(|l| l.contains("panicked")).next().unwrap_or("").chars().take(200).collect();
+                            cx.v("C13", "client-wedged:listtowers-unanswered:after-delivery".into(), format!("tower {t}: everything delivered, but listtowers is not answered any more; stderr: {msg}"));
+                        } else {
+                            cx.v("C13", format!("delivered-but-status-{st}"), format!("tower {t}: everything delivered, status still {st}"));
+                        }
                     }
                 }
             }
@@ -507,7 +514,10 @@ pub fn run_scenario(sc: &Scenario, props: &[&'static str]) -> Trace {
         // requests after the tower was proven misbehaving
         if let Some(pos) = st.log.iter().position(|s| matches!(s.answered_with, Reply::WrongKey | Reply::HoldThenWrongKey) && s.path == "/add_appointment") {
             // (requests that came in before that answer was out, and while the client was reading it, do not count)
-            let proven = st.log[pos].answered_at.map(|t| t + Duration::from_millis(500));
+            // (when that answer was held back other requests may have been on their way while it was read: half a second;
+            // otherwise the harness itself waited for the client to have digested it before going on)
+            let slack = if st.log[pos].answered_with == Reply::HoldThenWrongKey { 500 } else { 0 };
+            let proven = st.log[pos].answered_at.map(|t| t + Duration::from_millis(slack));
             let later = st.log[pos + 1..].iter().filter(|s| s.path == "/add_appointment" && proven.map_or(false, |p| s.at > p)).count();
             if later > 0 && props.contains(&"C14") {
                 cx.trace.viols.push(("request-sent-to-misbehaving-tower".into(), format!("tower {t} answered with a signature of another key, yet received {later} more add_appointment requests")));
@@ -1353,6 +1363,27 @@ fn c13_scenarios(_tier: Tier) -> Vec<Scenario> {
             ],
         });
     }
+    // a tower is abandoned while its retrier idles, and stays away: when the auto-retry delay is over the idle retrier of
+    // a tower that does not exist any more is woken up - the retry manager must survive that and serve the other tower
+    v.push(Scenario {
+        name: "abandoned-while-idle:auto-retry-delay-elapses:other-tower-has-an-outage".into(),
+        towers: 2,
+        opts: fast,
+        steps: vec![
+            Step::Register(0),
+            Step::Register(1),
+            Step::Down(0),
+            Step::Revoke(1),
+            Step::WaitStatus(0, "unreachable".into()),
+            Step::Abandon(0),
+            Step::Sleep(5600),
+            Step::Down(1),
+            Step::Revoke(2),
+            Step::Sleep(300),
+            Step::Up(1),
+            Step::WaitDelivered(1),
+        ],
+    });
     v
 }
 
